@@ -3,8 +3,8 @@
 // Calls the REAL go-rangers code in-process (types.MarshalX / types.UnMarshalX / GenHash) and
 // writes one op per line (what the Lean driver drv_c09 reads) plus the implementation's answer.
 //
-//   mode=corr   (default) ops=<file> obs=<file> tier=quick|thorough
-//   mode=search out=<file>  direct property oracle on the implementation (no model involved)
+//	mode=corr   (default) ops=<file> obs=<file> tier=quick|thorough
+//	mode=search out=<file>  direct property oracle on the implementation (no model involved)
 //
 // All randomness derives from VERIF_SEED.
 package main
@@ -387,8 +387,8 @@ func (g *gen) tx(prod bool) *types.Transaction {
 		Source: g.str(), Target: g.str(), Type: g.i32(), Time: g.str(), Data: g.str(), ExtraData: g.str(),
 		ExtraDataType: g.i32(), SubHash: g.hash(), Hash: g.hash(), Nonce: g.u64(), RequestId: g.u64(), ChainId: g.str(),
 	}
-	if !prod && g.r.Chance(1, 3) {
-		t.SocketRequestId = g.str()
+	if g.r.Chance(1, 3) {
+		t.SocketRequestId = g.str() // set for every client transaction (TxJson.ToTransaction)
 	}
 	if g.r.Bool() {
 		b := g.r.Bytes(65)
@@ -419,8 +419,8 @@ func (g *gen) txs(prod bool) []*types.Transaction {
 func (g *gen) group(prod bool) *types.Group {
 	gh := &types.GroupHeader{Hash: g.hash(), Parent: g.optBytes(), PreGroup: g.optBytes(), CreateBlockHash: g.optBytes(),
 		BeginTime: g.goTime(prod), MemberRoot: g.hash(), CreateHeight: g.u64(), Extends: g.str()}
-	if !prod && g.r.Chance(1, 3) {
-		gh.ReadyHeight, gh.WorkHeight, gh.DismissHeight = g.u64(), g.u64(), g.u64()
+	if g.r.Chance(1, 3) {
+		gh.ReadyHeight, gh.WorkHeight, gh.DismissHeight = g.u64(), g.u64(), g.u64() // groupChain.AddGroup sets them
 	}
 	gr := &types.Group{Header: gh, Id: g.optBytes(), PubKey: g.optBytes(), Signature: g.optBytes(), GroupHeight: g.u64()}
 	n := g.r.Pick(0, 1, 3, 5)
@@ -740,7 +740,7 @@ func (g *gen) mutate(kind string, b []byte, depth int) []byte {
 				}
 			}
 		case 5: // unknown fields of every wire type
-			f := field{tag: uint64(g.r.Pick(0, 21, 99, 1<<29 - 1, 1 << 40))}
+			f := field{tag: uint64(g.r.Pick(0, 21, 99, 1<<29-1, 1<<40))}
 			switch g.r.Intn(5) {
 			case 0:
 				f.wire, f.payload = 0, putVarint(nil, g.u64())
@@ -1034,6 +1034,65 @@ func panicClass(msg string) string {
 	return "other"
 }
 
+// diffTokens: indexes at which two token renderings differ (-1 = different token counts).
+func diffTokens(a, b string) []int {
+	x, y := strings.Fields(a), strings.Fields(b)
+	if len(x) != len(y) {
+		return []int{-1}
+	}
+	var d []int
+	for i := range x {
+		if x[i] != y[i] {
+			d = append(d, i)
+		}
+	}
+	return d
+}
+
+func onlyIn(d []int, allowed ...int) bool {
+	for _, i := range d {
+		ok := false
+		for _, a := range allowed {
+			if i == a {
+				ok = true
+			}
+		}
+		if !ok {
+			return false
+		}
+	}
+	return len(d) > 0
+}
+
+func zoneOff(t time.Time) (int, bool) {
+	if t.Location() == time.UTC {
+		return 0, true
+	}
+	_, off := t.Zone()
+	return off, false
+}
+
+// classes of zone offsets Go 1.23's Time.MarshalBinary/UnmarshalBinary pair does not carry:
+//
+//	"m1": offset/60 == -1 -> MarshalBinary fails ("unexpected zone offset")
+//	"negsec": negative seconds part -> version-2 encoding reads the seconds byte back unsigned
+func badZone(t time.Time) string {
+	off, utc := zoneOff(t)
+	if utc {
+		return ""
+	}
+	if off/60 == -1 {
+		return "m1"
+	}
+	if off%60 < 0 {
+		return "negsec"
+	}
+	if off/60 < -32768 || off/60 > 32767 {
+		return "range"
+	}
+	return ""
+}
+
 // parse oracle: object or error, never a panic, never (nil, nil), never an object that cannot be used.
 func (s *searcher) checkParse(kind string, b []byte) {
 	s.evals++
@@ -1049,6 +1108,51 @@ func (s *searcher) checkParse(kind string, b []byte) {
 		s.add(name+"-nil-nil", name+" returns (nil, nil) on "+hx.Hex(b), rp)
 	case strings.HasPrefix(res, "ok nilhdr"):
 		s.add(name+"-nil-header", name+" returns a block whose Header is nil, without error, on "+hx.Hex(b), rp)
+	}
+}
+
+// a header obtained by parsing must be a fixed point of Marshal;UnMarshal (content and hash)
+func (s *searcher) parsedHeaderRoundtrip(mb []byte) {
+	var res string
+	s.evals++
+	var h1 *types.BlockHeader
+	hx.Guard(func() string {
+		x, err := types.UnMarshalBlockHeader(mb)
+		if err == nil {
+			h1 = x
+		}
+		return ""
+	})
+	if h1 != nil {
+		res = hx.Guard(func() string {
+			bad := badZone(h1.PreTime) + badZone(h1.CurTime)
+			b1, err := types.MarshalBlockHeader(h1)
+			if err != nil || b1 == nil {
+				if strings.Contains(bad, "m1") || strings.Contains(bad, "range") {
+					return "time-zone-not-marshalable"
+				}
+				return "remarshal-failed"
+			}
+			h2, err := types.UnMarshalBlockHeader(b1)
+			if err != nil || h2 == nil {
+				return "reparse-failed"
+			}
+			d := diffTokens(tokHeader(h1), tokHeader(h2))
+			if len(d) > 0 {
+				if onlyIn(d, 3, 6) && strings.Contains(bad, "negsec") {
+					return "time-zone-negative-seconds " + tokHeader(h1) + " -> " + tokHeader(h2)
+				}
+				return "content " + tokHeader(h1) + " -> " + tokHeader(h2)
+			}
+			if h2.GenHash() != h1.GenHash() {
+				return "hash " + h1.ToString() + " -> " + h2.ToString()
+			}
+			return "same"
+		})
+		if res != "same" {
+			s.add("parsed-header-roundtrip-"+strings.SplitN(res, " ", 2)[0], "a header obtained by parsing changes under Marshal/UnMarshal: "+res,
+				map[string]string{"call": "UnMarshalBlockHeader;MarshalBlockHeader;UnMarshalBlockHeader", "bytes": hx.Hex(mb), "observed": res})
+		}
 	}
 }
 
@@ -1096,7 +1200,10 @@ func (s *searcher) run(g *gen, n int) {
 			if t2.GenHash() != t.GenHash() {
 				return "hash"
 			}
-			if tokTx(&t2) != tokTx(t) {
+			if d := diffTokens(tokTx(t), tokTx(&t2)); len(d) > 0 {
+				if onlyIn(d, 13) {
+					return "socket-request-id-dropped " + tokTx(t) + " -> " + tokTx(&t2)
+				}
 				return "content " + tokTx(t) + " -> " + tokTx(&t2)
 			}
 			return "same"
@@ -1119,8 +1226,13 @@ func (s *searcher) run(g *gen, n int) {
 			if b2.Header.GenHash() != bl.Header.GenHash() {
 				return "hash"
 			}
-			if tokHeader(b2.Header) != tokHeader(bl.Header) || tokTxs(b2.Transactions) != tokTxs(bl.Transactions) {
+			if tokHeader(b2.Header) != tokHeader(bl.Header) || len(b2.Transactions) != len(bl.Transactions) {
 				return "content"
+			}
+			for k := range b2.Transactions {
+				if d := diffTokens(tokTx(bl.Transactions[k]), tokTx(b2.Transactions[k])); len(d) > 0 && !onlyIn(d, 13) {
+					return "content"
+				}
 			}
 			for k := range b2.Transactions {
 				if b2.Transactions[k].GenHash() != bl.Transactions[k].GenHash() {
@@ -1147,7 +1259,10 @@ func (s *searcher) run(g *gen, n int) {
 			if g2.Header.GenHash() != gr.Header.GenHash() {
 				return "hash"
 			}
-			if tokGroup(g2) != tokGroup(gr) {
+			if d := diffTokens(tokGroup(gr), tokGroup(g2)); len(d) > 0 {
+				if onlyIn(d, 7, 8, 9) {
+					return "derived-heights-dropped " + tokGroup(gr) + " -> " + tokGroup(g2)
+				}
 				return "content " + tokGroup(gr) + " -> " + tokGroup(g2)
 			}
 			return "same"
@@ -1160,32 +1275,7 @@ func (s *searcher) run(g *gen, n int) {
 		hb, _ := types.MarshalBlockHeader(g.header(false))
 		if hb != nil {
 			mb := g.mutate("h", hb, 0)
-			s.evals++
-			res = hx.Guard(func() string {
-				h1, err := types.UnMarshalBlockHeader(mb)
-				if err != nil || h1 == nil {
-					return "same"
-				}
-				b1, err := types.MarshalBlockHeader(h1)
-				if err != nil || b1 == nil {
-					return "remarshal-failed"
-				}
-				h2, err := types.UnMarshalBlockHeader(b1)
-				if err != nil || h2 == nil {
-					return "reparse-failed"
-				}
-				if h2.GenHash() != h1.GenHash() {
-					return "hash " + h1.ToString() + " -> " + h2.ToString()
-				}
-				if tokHeader(h1) != tokHeader(h2) {
-					return "content " + tokHeader(h1) + " -> " + tokHeader(h2)
-				}
-				return "same"
-			})
-			if res != "same" {
-				s.add("parsed-header-roundtrip-"+strings.SplitN(res, " ", 2)[0], "a header obtained by parsing changes under Marshal/UnMarshal: "+res,
-					map[string]string{"call": "UnMarshalBlockHeader;MarshalBlockHeader;UnMarshalBlockHeader", "bytes": hx.Hex(mb), "observed": res})
-			}
+			s.parsedHeaderRoundtrip(mb)
 		}
 		// --- totality on hostile input
 		for _, k := range []string{"h", "t", "s", "b", "g"} {
@@ -1227,6 +1317,9 @@ func search(a map[string]string) {
 				if len(w) == 2 {
 					if b, err := hx.UnHex(w[1]); err == nil {
 						s.checkParse(strings.TrimSuffix(w[0], "c"), b)
+						if w[0] == "hu" {
+							s.parsedHeaderRoundtrip(b)
+						}
 					}
 				}
 			}
@@ -1237,6 +1330,11 @@ func search(a map[string]string) {
 	for _, l := range [][2]string{{"tu", "2801"}, {"hu", "-"}, {"gu", "0a0432003800"}, {"su", "0a022801"}} {
 		b, _ := hx.UnHex(l[1])
 		s.checkParse(l[0], b)
+	}
+	for _, w := range []string{"2210020000000ed958a92900000000ffc8243a0f010000000ed958a92900000000ffff",
+		"2210020000000ed958a92900000000fffe1e3a0f010000000ed958a92900000000ffff"} {
+		b, _ := hx.UnHex(w)
+		s.parsedHeaderRoundtrip(b)
 	}
 	for _, k := range []string{"tu", "hu", "su", "bu", "gu"} {
 		for x := 0; x < 256; x++ {
